@@ -1,5 +1,45 @@
 package main
 
+import (
+	"go/ast"
+	"go/token"
+)
+
+// c16DefaultWeight: the `weight := <lit>` short declaration of gateway.go createBackend: its literal, and
+// whether it sits INSIDE the body of the `range backendRefs` loop (so that every backendRef starts from the
+// default again; hoisted out of the loop a ref without weight would inherit the previous ref's weight).
+func c16DefaultWeight() (string, bool) {
+	fd := methodDecl("pkg/converters/gateway/gateway.go", "converter", "createBackend")
+	val, inLoop, n := "", false, 0
+	var walk func(node ast.Node, loop bool)
+	walk = func(node ast.Node, loop bool) {
+		ast.Inspect(node, func(x ast.Node) bool {
+			switch v := x.(type) {
+			case *ast.RangeStmt:
+				if id, ok := v.X.(*ast.Ident); ok && id.Name == "backendRefs" && x != node {
+					walk(v.Body, true)
+					return false
+				}
+			case *ast.AssignStmt:
+				if v.Tok == token.DEFINE && len(v.Lhs) == 1 && len(v.Rhs) == 1 {
+					if id, ok := v.Lhs[0].(*ast.Ident); ok && id.Name == "weight" {
+						if l, ok := lit(v.Rhs[0]); ok {
+							val, inLoop = l, loop
+							n++
+						}
+					}
+				}
+			}
+			return true
+		})
+	}
+	walk(fd.Body, false)
+	if n != 1 {
+		fail("gateway.go createBackend: expected exactly one `weight := <literal>`, found %d", n)
+	}
+	return val, inLoop
+}
+
 func factsC16() {
 	// ---- C16
 	lb := "pkg/converters/utils/lbweight.go"
@@ -16,4 +56,24 @@ func factsC16() {
 		}
 	}
 	addInt("c16MaxWeightUses", itoa(n256), "number of literal 256 in RebalanceWeight (HAProxy max weight)")
+	dw, inLoop := c16DefaultWeight()
+	addInt("c16GatewayDefaultWeight", dw, "gateway.go createBackend: `weight := <lit>`, the weight of a backendRef whose weight is nil")
+	addBool("c16GatewayDefaultInLoop", inLoop, "gateway.go createBackend: `weight := <lit>` is declared inside the body of the `range backendRefs` loop")
+	addBool("c16BlueGreenDrainSkip", has(cmps, "ep.Weight == 0"), "backend.go buildBackendBlueGreenBalance tests `ep.Weight == 0` (draining endpoint: skipped)")
+	addStr("c16BlueGreenPodMode", one(c16PodLits(), "blue/green pod mode literal"), "backend.go buildBackendBlueGreenBalance: `mode.Value == <lit>` stops before the rebalance")
+}
+
+// c16PodLits: string literals compared with mode.Value by `==`
+func c16PodLits() []string {
+	var res []string
+	fd := methodDecl("pkg/converters/ingress/annotations/backend.go", "updater", "buildBackendBlueGreenBalance")
+	ast.Inspect(fd.Body, func(x ast.Node) bool {
+		if b, ok := x.(*ast.BinaryExpr); ok && b.Op == token.EQL && exprString(b.X) == "mode.Value" {
+			if l, ok := b.Y.(*ast.BasicLit); ok && l.Kind == token.STRING {
+				res = append(res, l.Value)
+			}
+		}
+		return true
+	})
+	return res
 }
